@@ -48,6 +48,10 @@ use std::{
 mod config;
 mod handle;
 
+#[cfg(litep2p_verif)]
+#[path = "../../../verif/c20.rs"]
+pub(crate) mod verif_c20;
+
 mod schema {
     pub(super) mod bitswap {
         include!(concat!(env!("OUT_DIR"), "/bitswap.rs"));
